@@ -36,6 +36,9 @@ def owsim_half(ctx):
         # the same with slow library calls: the asynchronous writers fall behind the main loop, so whatever the main
         # loop does to a generation "too early" overlaps the writer's accesses
         s_slow = owsim.run_engine(ctx, cases, binary, ["-sample", str(max(n // 2, 10)), "-options", "basic", "-workers", "8", "-perturb", "-slowio", "1500"], seed_offset=700)
+        # TLC-chosen interleavings (OwSimSched.tla) forced onto the race-detector build
+        cases3, _ = owsim.graphs(ctx, "OwSimData_3.cfg")
+        owsim.schedule_replay(ctx, cases3, binary, 4 if ctx.quick else 40, 2 if ctx.quick else 8, seed_offset=2500, label="b3_race")
         s["evaluations"] += s_slow["evaluations"]
         s["mismatches"] += s_slow["mismatches"]
         s["extra"] = {"perturbed": s["extra"], "perturbed_slow_io": s_slow["extra"]}
